@@ -92,7 +92,8 @@ def gen(rng, tier, index):
     if rng.random() < 0.35:
         opts["event_callback"] = None  # the documented default: no callback
     return {"cfg": {"flavour": flavour, "opts": opts, "readme": False, "node_version": version_strings(rng),
-                    "connect_plan": rng.choice([["ok"], ["fail", "ok"], ["fail", "fail", "ok"], ["timeout", "ok"]])}}
+                    "connect_plan": rng.choice([["ok"], ["fail", "ok"], ["fail", "fail", "ok"], ["timeout", "ok"]]
+                                               + ([["unreach", "ok"], ["unreach", "fail", "ok"]] if flavour in ("tcp", "atcp") else []))}}
 
 
 def _vio(cls, detail, **sig):
@@ -134,8 +135,17 @@ def run(case):
                 raise _Done()
             rt = opts.get("reconnect_timeout", 10.0)
             world.device.connect_plan = list(cfg["connect_plan"])
-            world.start(persistence=bool(opts.get("persistence")))
-            world.advance(rt * 2.6 + 1.0)
+            try:
+                world.start(persistence=bool(opts.get("persistence")))
+            except (kernel.SimAbort, kernel.Deadlock):
+                raise
+            except Exception as exc:  # pylint: disable=broad-except
+                # host / port / reconnect_timeout take effect as "keep dialling that address at that interval": a failed
+                # dial - whatever the error - must not surface from start()
+                violations.append(_vio("option-not-honoured", {"start_raised": repr(exc), "plan": cfg["connect_plan"], "rt": rt},
+                                       option="reconnect_timeout(retry)"))
+                raise _Done()
+            world.advance(rt * 2.6 + 1.0 + 3.5 * sum(1 for p in cfg["connect_plan"] if p == "unreach"))
             attempts = world.device.attempts
             # ---- connection options ---------------------------------------------------------
             if flavour == "serial" and attempts:
@@ -167,7 +177,13 @@ def run(case):
                         violations.append(_vio("option-not-honoured", {"attempt_times": times, "plan": plan, "rt": rt}, option="reconnect_timeout(retry)"))
                     for i in range(1, len(times)):
                         gap = times[i] - times[i - 1]
-                        want_gap = rt if plan[i - 1] == "fail" or flavour in ("serial", "aserial") else 2 * rt
+                        want_gap = rt if plan[i - 1] in ("fail", "unreach") or flavour in ("serial", "aserial") else 2 * rt
+                        if plan[i - 1] == "unreach":
+                            # the simulated stack needs a moment to report "no route to host" (1 s on the asyncio side,
+                            # min(3 s, socket timeout) on the threaded side); the retry interval counts from there
+                            arg = attempts[i - 1][2]
+                            # (the asyncio dial is itself bounded by reconnect_timeout)
+                            want_gap += min(1.0, rt) if flavour == "atcp" else min(3.0, (arg[2] if len(arg) > 2 and arg[2] else 3.0))
                         if not want_gap - 0.06 <= gap <= want_gap * 1.05 + 0.06:
                             violations.append(_vio("option-not-honoured", {"attempt_times": times, "plan": plan, "rt": rt, "gap": gap},
                                                    option="reconnect_timeout(spacing)"))
